@@ -74,6 +74,10 @@ func (x *Exec) callCommon(fr *Frame, st *State, instr *ssa.Call, cc *ssa.CallCom
 	}
 	if callee == nil {
 		x.note("dynamic call through %s: havoc", cc.Value.Type())
+		if !fr.spec && ins != nil && len(fnv.L) == 1 {
+			// calling a nil function value panics (opt-in kind: see verifyUnit)
+			x.addObl(fr, st, "nilfunc", ins, "", x.tb.Not(x.tb.Eq(fnv.L[0], x.tb.BVInt(0, 64))))
+		}
 		return x.opaqueCall(fr, st, nil, args, resT, true)
 	}
 	return x.callStatic(fr, st, ins, callee, args, bindings, resT)
@@ -434,7 +438,7 @@ func (x *Exec) applyEff(st *State, eff *Effects) {
 // applyEffExact applies effects as given (a contract's declared frame).
 func (x *Exec) applyEffExact(st *State, eff *Effects) {
 	if eff.Top {
-		x.havocAll(st)
+		x.havocAllBut(st, eff.Classes)
 		for c := range eff.Classes {
 			if isGhostClass(c) {
 				x.havocClassPrefix(st, c) // ghost state survives a general havoc unless listed
@@ -500,7 +504,7 @@ func (x *Exec) opaqueCall(fr *Frame, st *State, callee *ssa.Function, args []Val
 	}
 	x.bumpNow(st)
 	if dynamic || callee == nil {
-		x.havocAll(st)
+		x.havocAllBut(st, nil)
 		return res
 	}
 	if inModule(callee) && callee.Blocks != nil {
